@@ -84,7 +84,7 @@ func cmdC03(args []string) {
 		nextF, nextS := 50, 50
 		lastRootK := -1 // index just after the last complete root record write
 		for k := 1; k <= len(muts); k++ {
-			if muts[k-1].Kind == memfile.Write && isRootRecord(muts[k-1].Data) {
+			if muts[k-1].Kind == memfile.Write && isRootRecord(muts[k-1].Data, muts[k-1].Off) {
 				lastRootK = k
 			}
 		}
@@ -93,7 +93,7 @@ func cmdC03(args []string) {
 			if k < len(muts) && muts[k].Kind == memfile.Write {
 				n := muts[k].Len
 				switch {
-				case *tier == "thorough" || isRootRecord(muts[k].Data):
+				case *tier == "thorough" || isRootRecord(muts[k].Data, muts[k].Off):
 					for c := 1; c < n; c++ {
 						cuts = append(cuts, c)
 					}
@@ -103,7 +103,7 @@ func cmdC03(args []string) {
 					}
 				}
 			}
-			if k > 0 && muts[k-1].Kind == memfile.Write && isRootRecord(muts[k-1].Data) {
+			if k > 0 && muts[k-1].Kind == memfile.Write && isRootRecord(muts[k-1].Data, muts[k-1].Off) {
 				// arbitrary junk after a complete root record: marker fragments, a single marker,
 				// doubled markers, copies of the record's own tail, random bytes
 				root := muts[k-1].Data
@@ -124,14 +124,14 @@ func cmdC03(args []string) {
 				// correctly FRAMED records (markers, version, both lengths, trailer offset naming the
 				// place they lie at) whose payload is not a root map: the scan has to pass over them
 				at := muts[k-1].Off + int64(len(root))
-				for _, pl := range []string{`{"a":{"o":1`, `[]`, ``, `{"a":5}`} {
+				for _, pl := range []string{`{"a":{"o":1`, `[]`, ``, `{"a":5}`, `{}x`, `{"q":{"o":0,"l":0}}{"r":1}`, `{"q":{"o":0,"l":0}}]`} {
 					junks = append(junks, framedRecord(at, []byte(pl)))
 				}
 				// VERBATIM copies of earlier, different root records: complete and self-consistent in
 				// every field except that their trailer offset names the place they came from
 				seen := 0
 				for j := k - 2; j >= 0 && seen < 3; j-- {
-					if muts[j].Kind == memfile.Write && isRootRecord(muts[j].Data) && !bytes.Equal(muts[j].Data, root) {
+					if muts[j].Kind == memfile.Write && isRootRecord(muts[j].Data, muts[j].Off) && !bytes.Equal(muts[j].Data, root) {
 						junks = append(junks, muts[j].Data, append(append([]byte{}, rb...), muts[j].Data...))
 						seen++
 					}
